@@ -299,6 +299,7 @@ func TestC06(t *testing.T) {
 		Stubs:       []string{"time (simtime: every Now/Since is the next reading of a drawn clock program: stalls, backward and forward jumps, ticks)", "sync (simsync.Mutex)", "goroutine scheduling (simrt)", "snowflake layout installed through the verif-tagged VerifSetConfig"},
 		Rule: "scenario = generator (wall-clock node, monotonic node, unix-nano) x layout (node bits 8/9/10, node-at-lowest, 3 epochs, node number at the edges) x clock program (1-6 segments of (delta, reads): 0, +-1ns..+-1h, +1y) x 1-3 phases of 1-4 concurrent callers (1-40 calls; 1 in 20 runs up to 4200 calls per caller to cross the 4096-step wrap) with optional restart from the last issued id x scheduler knobs/tape; " +
 			"non-trivial = >=3 calls; distinct = distinct event-log hash",
+		Probes: []string{"gen-hard", "gen-mono", "gen-nano", "restart", "clock-went-backwards", "clock-stalled", "runs-crossing-step-wrap"},
 		Assumptions: []string{"the monotonic node is driven by non-decreasing clock programs only (real Go computes Since on the monotonic reading); its spin loop needs a clock that advances per read",
 			"forward jumps stay inside the timestamp width of the layout"},
 	})
